@@ -21,6 +21,7 @@ RULE = ('Each case: random spike times (many exactly on chunk bounds) and cluste
         'stride that does not divide the chunk count, or with a count smaller than an eligible group. Histories on one selector: a second, different query; a query after two spikes swapped clusters behind the callback (cluster sizes unchanged). Subsets are also given with repeated ids and unsorted. Model route: TemplateModel.save_spikes_subset_waveforms on generated datasets whose recordings span 8-60 chunks (1-3 files); the saved spike ids are judged against the 20 kept chunks of the reader\'s grid and the per-template count.')
 RULE += ' Times / bounds / subsets also read-only; subsets of dtype uint64 / int32 / uint32.'
 RULE += ' Round 5: requests naming a cluster twice; positional subset_chunks / subset_spikes.'
+RULE += ' Round 6: unsorted spike-time vectors; raw files shorter than the spike train in the model route.'
 EXHAUSTIVE = {'quick': False, 'thorough': False}
 FLOORS = {'quick': {'evaluations': 60000, 'distinct_nontrivial': 3000,
                     'monitors': {'M2._flatten_per_cluster.checked': 10000, 'model_subset_judged': 30}},
